@@ -58,11 +58,12 @@ Definition align_gradient (m : mill K) (g : list (vec3 K)) : outcome (list (vec3
 Definition idx4 (gc bi bj a b : nat) : nat := ((bi * gc + bj) * 3 + a) * 3 + b.
 (* as_strided(a, shape = (h/3, w/3, 3, 3), strides = (3*s0, 3*s1, s0, s1)) on a C-contiguous
    (h,w) array whose strides in elements are s0 = w, s1 = 1 *)
+Definition unidx4 (gc k : nat) : nat * nat * nat * nat :=     (* np.unravel_index(k, (gr,gc,3,3)) *)
+  ((k / (9 * gc))%nat, ((k / 9) mod gc)%nat, ((k / 3) mod 3)%nat, (k mod 3)%nat).
 Definition expand (gr gc : nat) (H : list K) : list K :=
   let s0 := (3 * gc)%nat in let s1 := 1%nat in
   tab (gr * gc * 9) (fun k =>
-    let b := (k mod 3)%nat in let a := ((k / 3) mod 3)%nat in
-    let bj := ((k / 9) mod gc)%nat in let bi := (k / (9 * gc))%nat in
+    let '(bi, bj, a, b) := unidx4 gc k in
     nth (bi * (3 * s0) + bj * (3 * s1) + a * s0 + b * s1)%nat H 0).
 (* reshape(gr*gc,3,3) ; reshape(h//3, -1, 3, 3).swapaxes(1,2).reshape(h, w) with h = 3 gr, w = 3 gc:
    out[3I+a, 3J+b] = arr[I,J,a,b] *)
@@ -75,18 +76,18 @@ Definition contract (gr gc : nat) (B : list K) : list K :=
 (** ---- align_hessian ---- *)
 Definition blk (gc : nat) (B : list K) (bi bj : nat) : mat3 K :=
   mk3 (fun a b => nth (idx4 gc bi bj a b) B 0).
-Definition unidx4 (gc k : nat) : nat * nat * nat * nat :=
-  ((k / (9 * gc))%nat, ((k / 9) mod gc)%nat, ((k / 3) mod 3)%nat, (k mod 3)%nat).
 (* blocked[:, :, 1, :] *= -1 ; blocked[:, :, :, 1] *= -1 *)
 Definition neg_axis2 (B : list K) : list K :=
   tab (length B) (fun k => if Nat.eqb ((k / 3) mod 3) 1 then nth k B 0 * (- (1)) else nth k B 0).
 Definition neg_axis3 (B : list K) : list K :=
   tab (length B) (fun k => if Nat.eqb (k mod 3) 1 then nth k B 0 * (- (1)) else nth k B 0).
-(* alhess[iat, jat] = rotation.T.dot(blocked[iat, jat].dot(rotation)) *)
+(* for iat: for jat: alhess[iat, jat] = rotation.T.dot(blocked[iat, jat].dot(rotation)) *)
+Definition mflat (M : mat3 K) : list K :=
+  let '((a, b, c), (d, e, f), (g, h, i)) := M in [a; b; c; d; e; f; g; h; i].
+Definition rot_block (m : mill K) (n : nat) (B : list K) (bi bj : nat) : mat3 K :=
+  mmul (mtrans (rot m)) (mmul (blk n B bi bj) (rot m)).
 Definition rot_blocks (m : mill K) (n : nat) (B : list K) : list K :=
-  tab (n * n * 9) (fun k =>
-    let '(bi, bj, a, b) := unidx4 n k in
-    ment (mmul (mtrans (rot m)) (mmul (blk n B bi bj) (rot m))) a b).
+  flat_map (fun k => mflat (rot_block m n B (k / n) (k mod n))) (seq 0 (n * n)).
 (* alhess[np.ix_(atommap, atommap)] *)
 Definition ix_blocks (n : nat) (p : list nat) (B : list K) : outcome (list K) :=
   if forallb (fun i => Nat.ltb i n) p then
@@ -130,7 +131,8 @@ Definition align_vector_gradient (m : mill K) (mu : list K * list K * list K)
   else match vg_scan n (seq 0 n) (amap m) with
   | Some e => Err e
   | None =>
-    let row (a : nat) := tab (3 * n) (fun k => ment (datom m mu (nth (k / 3) (amap m) O)) a (k mod 3)) in
+    let ds := map (fun at' => datom m mu (nth at' (amap m) O)) (seq 0 n) in
+    let row (a : nat) := flat_map (fun D => [ment D a 0%nat; ment D a 1%nat; ment D a 2%nat]) ds in
     Ok (row 0%nat, row 1%nat, row 2%nat)
   end.
 
@@ -154,8 +156,11 @@ Definition is_perm (n : nat) (p : list nat) : Prop :=
 End Model.
 
 (** ======== instance at Q and the correspondence checkers (run by vm_compute) ======== *)
+(* results are kept in lowest terms ([Qred]) so that numerators/denominators stay small *)
 #[export] Instance QOps : Ops Q :=
-  {| k0 := 0%Q; k1 := 1%Q; kadd := Qplus; kmul := Qmult; ksub := Qminus; kopp := Qopp |}.
+  {| k0 := 0%Q; k1 := 1%Q;
+     kadd := fun a b => Qred (Qplus a b); kmul := fun a b => Qred (Qmult a b);
+     ksub := fun a b => Qred (Qminus a b); kopp := Qopp |}.
 
 Definition qclose (tol a b : Q) : bool := Qle_bool (Qabs (a - b)) tol.
 Fixpoint all2 {A} (f : A -> A -> bool) (x y : list A) : bool :=
